@@ -38,6 +38,10 @@ fn block_types() -> Vec<Query> {
         q(vec![], Some([Some(3), Some(1), None]), true),
         q(vec![0], None, false),
         q(vec![0, 1], Some([Some(1), None, None]), true),
+        // blocks without `from`: candidates are what is referenced / what holds the requested token, wherever it
+        // sits - they compete with the party's blocks for the same UTxOs
+        Query { address: None, ..q(vec![0], None, false) },
+        Query { address: None, ..q(vec![], Some([None, Some(1), None]), false) },
     ]
 }
 
@@ -447,7 +451,7 @@ impl Prop for C04 {
     fn rule(&self, tier: Tier) -> String {
         format!(
             "complete product: every multiset store of <= 4 UTxOs at one address (lovelace 1..2 x T1 0..1) x every ordered tuple of k <= {} \
-             overlapping block types (9 types: single/many, lovelace / token thresholds, equal and overlapping refs) x with/without collateral; \
+             overlapping block types (11 types: single/many, lovelace / token thresholds, equal and overlapping refs, two without `from`: ref-only and token-only) x with/without collateral; \
              every assignment of names to source positions (k <= 3); every iteration order of the candidate set of the first block and of the second block. \
              Oracle: pairwise disjoint selections (collateral exempt), every block sound w.r.t. what earlier blocks took, emitted input list = \
              union of selections without duplicates. Language level: programs with 2-3 input blocks named from [a, A, b, aB, Ab, collateral, Collateral, x] (every ordered pair / triple, \
